@@ -532,6 +532,12 @@ def r3_one_outstanding(ctx, F):
             ok = False
             for (i, a) in nones:
                 g_ok = any(e and b.edges_dominate(e, i) for e in [b.branch(g, True) for g in guards] + prim_guards)
+                if not g_ok:
+                    # the replies may be classified first (`let put_acked = match msg { PutOk(id) if id == awaiting
+                    # => true, GetOk(id, _) if id == awaiting => false, _ => return }`): together the true edges of
+                    # the id tests guard what follows
+                    allt_ = [e for g in guards for e in b.branch(g, True)] + [e for es in prim_guards for e in es]
+                    g_ok = bool(allt_) and b.edges_dominate(allt_, i)
                 no_send = not any(s_.bb in b.reach([i]) or i in b.reach([s_.bb]) for s_ in sends)
                 if g_ok and no_send:
                     ok = True
